@@ -116,6 +116,7 @@ func runC14(t *testing.T, seed uint64, planJSON []byte, tier string) (res *Resul
 		var callers map[string]*c14Caller
 		byID := map[int32]*c14Caller{}
 		var firstSeen time.Duration = -1
+		closeFired := false
 		var ep *C14Episode
 		net.OnDispatch = func(sess int, pkg interface{}, consumed int) {
 			if rm, ok := pkg.(message.RpcMessage); ok {
@@ -140,6 +141,7 @@ func runC14(t *testing.T, seed uint64, planJSON []byte, tier string) (res *Resul
 				firstSeen = sim.Now()
 				if ep != nil && ep.CloseAfterMs > 0 {
 					sim.Post("c14-close", time.Duration(ep.CloseAfterMs)*time.Millisecond+13*time.Microsecond, "", func() {
+						closeFired = true
 						for _, s := range net.Sessions() {
 							if !s.IsClosed() {
 								net.CloseFromServer(s.SimID())
@@ -180,6 +182,7 @@ func runC14(t *testing.T, seed uint64, planJSON []byte, tier string) (res *Resul
 			ep = &plan.Episodes[i]
 			callers = map[string]*c14Caller{}
 			firstSeen = -1
+			closeFired = false
 			futBefore := getty.VerifPendingFutures()
 			parkedBefore := parkedInResponseDelivery()
 			var list []*c14Caller
@@ -216,6 +219,10 @@ func runC14(t *testing.T, seed uint64, planJSON []byte, tier string) (res *Resul
 			// bound: session wait (60 s) + RPC timeout + slack, from the documented timeouts
 			ok := sim.Run(func() bool { return allDone() || sim.Now()-t0 > 200*time.Second })
 			_ = ok
+			// the disturbance must be over before the fresh request is issued
+			if ep.CloseAfterMs > 0 && firstSeen >= 0 {
+				sim.Run(func() bool { return closeFired || sim.Now()-t0 > 300*time.Second })
+			}
 			// make sure a live registered session exists again, then the fresh request
 			sim.Run(func() bool {
 				for _, s := range net.Sessions() {
